@@ -3,6 +3,7 @@ CONSTANTS
   Coords = {0, 2, 4}
   Dims = 1
   MaxBoxes = 3
+  WithInf = TRUE
   WithNull = TRUE
   WithSemi = TRUE
   Edge = "coded"
